@@ -104,7 +104,8 @@ class Domain:
         if self._user_volume is None:
             return self._get_volume(params, device=device)
         else:
-            return self._user_volume(params, device=device)
+            # (one row per parameter row, also if a plain number was set)
+            return self._user_volume(params, device=device).reshape(-1, 1)
 
     def __add__(self, other):
         """Creates the union of the two input domains.
